@@ -25,6 +25,9 @@ _TYPES = {
 }
 
 
+_MISSING = object()
+
+
 def concrete(t: T, env: dict, funcs: dict | None = None):
     """Evaluate term t; env maps atom terms (by identity) to Python values."""
     funcs = funcs or {}
@@ -150,6 +153,11 @@ def concrete(t: T, env: dict, funcs: dict | None = None):
                 if n in ("builtins.list", "builtins.frozenset", "builtins.tuple", "builtins.reversed", "builtins.sorted"):
                     fn = {"list": list, "frozenset": frozenset, "tuple": tuple, "reversed": reversed, "sorted": sorted}[n.split(".")[1]]
                     return fn(ev(args[0])) if args else fn()
+                if n in ("builtins.any", "builtins.all", "builtins.sum"):
+                    try:
+                        return {"any": any, "all": all, "sum": sum}[n.split(".")[1]](ev(args[0]))
+                    except TypeError as e_:
+                        raise Raised(str(e_))
                 if n in ("builtins.max", "builtins.min"):
                     vals = [ev(y) for y in args]
                     return (max if n.endswith("max") else min)(*vals)
@@ -170,6 +178,33 @@ def concrete(t: T, env: dict, funcs: dict | None = None):
                     return funcs[key](recv, *[ev(y) for y in args], **{k: ev(v) for k, v in kwargs})
                 raise Unmodelled("." + m)
             raise Unmodelled(f.op)
+        if op == "comp":
+            # comprehension / generator expression with one `for`: the bound variable occurs as elem(<iterable term>)
+            kind, body, gens = a[0], a[1], a[2]
+            if len(gens) != 1:
+                raise Unmodelled("nested comprehension")
+            it, conds = gens[0]
+            from .terms import mk as _mk
+            var = _mk("elem", it)
+            out = []
+            saved = env.get(var, _MISSING)
+            try:
+                for xv in ev(it):
+                    env[var] = xv
+                    if all(ev(c_) for c_ in conds):
+                        out.append(ev(body))
+            finally:
+                if saved is _MISSING:
+                    env.pop(var, None)
+                else:
+                    env[var] = saved
+            if kind == "set":
+                return set(out)
+            if kind == "dict":
+                return dict(out)
+            return out
+        if op == "kv":
+            return (ev(a[0]), ev(a[1]))
         if op == "dictkeys":
             return ev(a[0]).keys()
         if op == "attr":
